@@ -981,6 +981,22 @@ theorem true_verdict_records_nothing (table : List BuiltinMsg) (v : V) (e : View
   cases hv'
   exact hnone (hiff.1 ht)
 
+/-- **independence from validation state**: whatever `.valid` flags and recorded errors the
+    siblings (earlier list members, sibling fields) carry, every validator's verdict, message and
+    resulting value are the same — in particular `NotDuplicated` judges by the siblings' VALUES
+    only (a sibling rejected earlier, by this or another validator, still counts as the first
+    occurrence) -/
+theorem verdict_ignores_validation_state (v : V) (e : View) (st : List (Option Bool × Nat)) :
+    verdict v { e with siblingState := st } = verdict v e ∧
+    valueAfter v { e with siblingState := st } = valueAfter v e ∧
+    documented v { e with siblingState := st } = documented v e := by
+  refine ⟨?_, ?_, ?_⟩ <;> cases v <;> rfl
+
+/-- `notdup_ignores_valid`: the `NotDuplicated` instance -/
+theorem notdup_ignores_valid (e : View) (st : List (Option Bool × Nat)) :
+    verdict .notDuplicated { e with siblingState := st } = verdict .notDuplicated e :=
+  (verdict_ignores_validation_state .notDuplicated e st).1
+
 /-- **note_warning**: a validator reporting through `note_warning` does to the warnings list
     exactly what it would do to the errors list through `note_error` — so `messages`,
     `messages_total` and `false_verdict_records_one` hold verbatim for warnings -/
